@@ -396,6 +396,15 @@ pub fn run_c10(ctx: &mut Ctx) -> (String, Value, Vec<String>) {
             models += 1;
         }
     }
+    // curves collected from an iterator (monotone closure of the given distances), also with
+    // equal neighbouring entries
+    for pf in [vec![0u64, 0, 5], vec![3, 1, 5, 4], vec![0, 4, 4, 8], vec![2, 2], vec![0, 0, 0, 0, 6, 7], vec![1, 2, 6]] {
+        let spec = ArrSpec::CurveCollected { dmin: pf.clone() };
+        check_model(ctx, "arrival::Curve::from_iter", &spec, &Aut::of(&spec).unwrap(), h, false, &mut st, &mut samples);
+        let spec = ArrSpec::Jitter { inner: Box::new(spec), j: 2 };
+        check_model(ctx, "arrival::Curve::from_iter", &spec, &Aut::of(&spec).unwrap(), h.min(40), false, &mut st, &mut samples);
+        models += 2;
+    }
     // added jitter: Propagated / clone_with_jitter over every kind of model
     let jmax = if quick { 3 } else { 5 };
     let mut bases: Vec<ArrSpec> = vec![
@@ -412,6 +421,11 @@ pub fn run_c10(ctx: &mut Ctx) -> (String, Value, Vec<String>) {
             bases.push(ArrSpec::ExtCurve { dmin: pf.clone() });
         }
     }
+    // superpositions under added jitter (the sparser component first and second)
+    bases.push(ArrSpec::SumOf(Box::new(ArrSpec::Periodic { t: 9 }), Box::new(ArrSpec::Sporadic { t: 3, j: 1 })));
+    bases.push(ArrSpec::SumOf(Box::new(ArrSpec::Sporadic { t: 2, j: 0 }), Box::new(ArrSpec::Periodic { t: 7 })));
+    bases.push(ArrSpec::Sum(vec![ArrSpec::Periodic { t: 8 }, ArrSpec::Curve { dmin: vec![0, 3] }]));
+    bases.push(ArrSpec::Sum(vec![ArrSpec::Sporadic { t: 11, j: 0 }, ArrSpec::Sporadic { t: 5, j: 2 }, ArrSpec::Periodic { t: 4 }]));
     bases.push(ArrSpec::Prefix { horizon: 8, steps: vec![(1, 1), (3, 2), (7, 3)] });
     bases.push(ArrSpec::Prefix { horizon: 5, steps: vec![(1, 2), (4, 3)] });
     for b in &bases {
